@@ -7,7 +7,7 @@ From Synnax Require Import Common.Base Core.Ontology.
 Local Open Scope N_scope.
 
 (* the configuration the correspondence runs the model in (= what /repo carries) *)
-Definition model_cfg : cfg := pinned.
+Definition model_cfg : cfg := fixed.
 
 (* ---- observations ---- *)
 Definition raw_id : Type := str * str.
